@@ -19,6 +19,9 @@ def run(ctx):
             ctx.mc("MCEchPipe", "MCEchPipe_rl.cfg", timeout=3000)     # liveness: a persistent reader gets everything
             ctx.mc("MCEchPipe", "MCEchPipe_rt.cfg", timeout=3000)
     pipe_traces(ctx, 1200 if ctx.quick else 16000)
+    # both directions at once: the reader already parked in the transport when the backend writes its HelloRetryRequest
+    if not ctx.replay:
+        hrr_parked(ctx)
 
 
 def pipe_traces(ctx, n, label="pp"):
@@ -40,3 +43,8 @@ def pipe_traces(ctx, n, label="pp"):
     for tr in traces:
         tr[0]["seed"] = ctx.seed
     vlib.check_traces_chunks(ctx, traces, 400 if ctx.quick else 4000, label, module="TraceEchPipe", cfg="TraceEchPipe.cfg", specname="EchPipe.tla")
+
+
+def hrr_parked(ctx):
+    import echcommon
+    echcommon.echconn_slice(ctx, lambda c: any(c["hist"][i] == ["w", "HRR"] and c["hist"][i + 1][0] == "r" for i in range(len(c["hist"]) - 1)), label="hrr flights")
